@@ -25,6 +25,52 @@ var registry = map[string]*Prop{}
 
 func register(p *Prop) { registry[p.ID] = p }
 
+// extend adds rules to an already (or later) registered property; the extra
+// rules run after the property's own and may add to its explanation.
+var extensions = map[string][]func(p *core.Prog, r *core.Report, tier string){}
+var extNotes = map[string][]string{}
+var extPatterns = map[string][]string{}
+
+func extend(id, note string, patterns []string, run func(p *core.Prog, r *core.Report, tier string)) {
+	extensions[id] = append(extensions[id], run)
+	if note != "" {
+		extNotes[id] = append(extNotes[id], note)
+	}
+	extPatterns[id] = append(extPatterns[id], patterns...)
+}
+
+// Finalize wires the extensions into their properties (called once from main).
+func Finalize() {
+	for id, exts := range extensions {
+		p := registry[id]
+		if p == nil {
+			continue
+		}
+		base := p.Run
+		exts := exts
+		p.Run = func(pr *core.Prog, r *core.Report, tier string) {
+			base(pr, r, tier)
+			for _, e := range exts {
+				e(pr, r, tier)
+			}
+		}
+		for _, n := range extNotes[id] {
+			p.Explanation += " Additionally: " + n
+		}
+		have := map[string]bool{}
+		for _, x := range p.Patterns {
+			have[x] = true
+		}
+		for _, x := range extPatterns[id] {
+			if !have[x] {
+				p.Patterns = append(p.Patterns, x)
+				have[x] = true
+			}
+		}
+	}
+	extensions = map[string][]func(p *core.Prog, r *core.Report, tier string){}
+}
+
 // Get returns a property's rule set.
 func Get(id string) *Prop { return registry[id] }
 
